@@ -350,6 +350,11 @@ def micro_c07_blocked_repayment(r) -> Dict[str, Any]:
           "early_lookup": False, "fee": None, "liq": {"limit": "25", "impact": "0"},
           "lend": {"quote": "USD", "default": cond, "per_symbol": {}}, "max_concurrent": 50, "bars": {"BTC/USD": bars},
           "init": {"USD": _s(p0 * amt / 2), "BTC": "0"}, "actions": actions, "on_order_event": [], "jobs": []}
+    if r.random() < 0.5:
+        # two explicit loans of exactly the same size are open next to the automatic one
+        x_ = r.choice(["50", "7.5"])
+        actions["BTC/USD@1"] = [{"op": "loan", "symbol": "USD", "amount": x_, "boundary": False},
+                                {"op": "loan", "symbol": "USD", "amount": x_, "boundary": False}] + actions["BTC/USD@1"]
     if r.random() < 0.4:
         # the interest is charged in a third symbol of which the account holds nothing: the principal is affordable,
         # the repayment is not
@@ -398,7 +403,7 @@ def micro_c07_scenario(r) -> Dict[str, Any]:
                              "pair": r.choice(["ETH/USD", "BTC/USD"]), "amount": r.choice(["1", "0.5"]),
                              "limit": "40", "stop": "60", "auto_borrow": r.random() < 0.7, "auto_repay": r.random() < 0.3})
             elif x < 0.9:
-                acts.append({"op": "repay", "among": "open", "pick": r.randrange(10)})
+                acts.append({"op": "repay", "among": r.choice(["open", "open", "closed", "any"]), "pick": r.randrange(10)})
             else:
                 acts.append({"op": "cancel", "among": "open", "pick": r.randrange(10)})
         actions[f"BTC/USD@{t}"] = acts
